@@ -566,30 +566,33 @@ theorem ets_forwards_every_option (p : Args) :
     simp only [etsFitOptions, List.mem_cons, List.not_mem_nil, or_false] at hk
     rcases hk with rfl | rfl | rfl | rfl | rfl | rfl <;> rfl
 
-/-- FULL STATEMENT (does not hold, see `theta_zero_level_witness`): the wrapped model of `ThetaForecaster` is simple
-exponential smoothing whose initial level is the given one ("known") exactly when one is given.
-Proved for every given level other than 0 (and for none given). -/
-theorem theta_wraps_ses_partial (p : Args) (h0 : get p "initial_level" ≠ "0") :
+/-- the wrapped model of `ThetaForecaster` is simple exponential smoothing (no trend, no seasonal component) with the
+period and the initial level of the forecaster; the initial level is taken as given ("known") exactly when one is given —
+a given level of 0 included — and statsmodels never receives the combination it rejects -/
+theorem theta_wraps_ses (p : Args) :
     get (thetaCtor p) "trend" = "None" ∧ get (thetaCtor p) "seasonal" = "None" ∧ get (thetaCtor p) "damped_trend" = "F" ∧
     get (thetaCtor p) "seasonal_periods" = get p "sp" ∧ get (thetaCtor p) "initial_level" = get p "initial_level" ∧
     get (thetaCtor p) "initialization_method" = (if get p "initial_level" = "None" then "estimated" else "known") ∧
     smRejects (thetaCtor p) = false := by
   refine ⟨rfl, rfl, rfl, rfl, rfl, ?_, ?_⟩
   · by_cases hn : Adapter.get p "initial_level" = "None"
-    · simp only [thetaCtor, hn, beq_self_eq_true, Bool.true_or, ↓reduceIte]; rfl
-    · have e : (Adapter.get p "initial_level" == "None" || Adapter.get p "initial_level" == "0") = false := by simp [hn, h0]
+    · simp only [thetaCtor, hn, beq_self_eq_true, ↓reduceIte]; rfl
+    · have e : (Adapter.get p "initial_level" == "None") = false := by simp [hn]
       simp only [thetaCtor, e, hn, ↓reduceIte]; rfl
   · by_cases hn : Adapter.get p "initial_level" = "None"
-    · simp only [smRejects, thetaCtor, hn, beq_self_eq_true, Bool.true_or, ↓reduceIte]; rfl
-    · have e : (Adapter.get p "initial_level" == "None" || Adapter.get p "initial_level" == "0") = false := by simp [hn, h0]
+    · simp only [smRejects, thetaCtor, hn, beq_self_eq_true, ↓reduceIte]; rfl
+    · have e : (Adapter.get p "initial_level" == "None") = false := by simp [hn]
       simp only [smRejects, thetaCtor, e]; rfl
 
-/-- negation at a witness: a given initial level of exactly 0 is forwarded together with "estimated", which statsmodels rejects -/
-theorem theta_zero_level_witness :
-    get (thetaCtor [("initial_level", "0"), ("sp", "1")]) "initialization_method" = "estimated" ∧
-    get (thetaCtor [("initial_level", "0"), ("sp", "1")]) "initial_level" = "0" ∧
-    smRejects (thetaCtor [("initial_level", "0"), ("sp", "1")]) = true := by
-  refine ⟨by decide, by decide, by decide⟩
+/-- the pre-fix witness (F4), now a regression: a given initial level of exactly 0 is "known" -/
+example : get (thetaCtor [("initial_level", "0"), ("sp", "1")]) "initialization_method" = "known" ∧
+    smRejects (thetaCtor [("initial_level", "0"), ("sp", "1")]) = false := by
+  refine ⟨by decide, by decide⟩
+
+/-- about the ORIGINAL code (before 636f889): it forwarded the level 0 together with "estimated", which statsmodels rejects -/
+example : get (Adapter.thetaCtorOrig [("initial_level", "0"), ("sp", "1")]) "initialization_method" = "estimated" ∧
+    smRejects (Adapter.thetaCtorOrig [("initial_level", "0"), ("sp", "1")]) = true := by
+  refine ⟨by decide, by decide⟩
 
 example : get (esCtor [("trend", "mul"), ("damped_trend", "T"), ("sp", "4")]) "damped_trend" = "T" := by decide
 
